@@ -191,6 +191,35 @@ example : ∃ r', concatHeap [[105, 100], [55]] 0 0 [2, 2, 2] {} =
   (C17_concat_frame [[105, 100], [55]] 0 0 [105, 100] [105, 100] [2, 2, 2] {} rfl rfl rfl rfl
     (by decide) (by decide) (by decide)).imp fun _ h => h.1
 
+/-- the byte intrinsics: `string_nth_byte(s, n)` is the `n`-th byte for `0 ≤ n < string_count_bytes(s)`
+    and the out-of-bounds error for every other `n` (negative ones included); reading all indices
+    below the count gives back exactly the bytes of the string -/
+theorem C17_byte_intrinsics (s : Bytes) :
+    (∀ n : Int, 0 ≤ n → n < countBytes s → ∃ b, s[n.toNat]? = some b ∧ nthByte s n = .val b.toNat) ∧
+    (∀ n : Int, (n < 0 ∨ countBytes s ≤ n) → nthByte s n = .outOfBounds) ∧
+    (List.range s.length).map (fun (i : Nat) => nthByte s (i : Int)) = s.map (fun b => ByteRes.val b.toNat) := by
+  refine ⟨?_, ?_, ?_⟩
+  · intro n h0 h1
+    have hlt : n.toNat < s.length := by unfold countBytes at h1; omega
+    refine ⟨s[n.toNat], List.getElem?_eq_getElem hlt, ?_⟩
+    unfold nthByte
+    have : ¬ (n < 0 ∨ n.toNat ≥ s.length) := by omega
+    simp [this, List.getElem?_eq_getElem hlt]
+  · intro n h
+    unfold nthByte
+    have : n < 0 ∨ n.toNat ≥ s.length := by unfold countBytes at h; omega
+    simp [this]
+  · apply List.ext_getElem
+    · simp
+    · intro i h1 h2
+      have hi : i < s.length := by simpa using h1
+      have : ¬ (((i : Nat) : Int) < 0 ∨ ((i : Nat) : Int).toNat ≥ s.length) := by omega
+      simp [nthByte, List.getElem?_eq_getElem hi]
+      exact hi
+
+example : nthByte [97, 98, 99] 2 = .val 99 ∧ nthByte [97, 98, 99] 3 = .outOfBounds ∧
+    nthByte [97, 98, 99] (-1) = .outOfBounds := by decide
+
 /-- concatenation takes exactly `|a| + |b| + 1` steps: with one step less it is still in flight
     (so the bound above is tight and a budget boundary really can fall inside the instruction) -/
 theorem C17_concat_steps_exact (a b : Bytes) (r : Regs) (h1 : r.idx1 = 0) (h2 : r.idx2 = 0) :
